@@ -2744,10 +2744,10 @@ func (s *Server) serveConnCounted(c net.Conn, countConcurrency bool) error {
 			break
 		}
 
-		if ctx.Request.bodyStream != nil {
-			if rs, ok := ctx.Request.bodyStream.(*requestStream); ok {
-				releaseRequestStream(rs)
-			}
+		// Only the pooled requestStream is detached here. A stream attached by
+		// the handler stays in place, so ctx.Request.Reset() below closes it.
+		if rs, ok := ctx.Request.bodyStream.(*requestStream); ok {
+			releaseRequestStream(rs)
 			ctx.Request.bodyStream = nil
 		}
 
